@@ -149,6 +149,7 @@ impl<T: Value> Incr<T> {
             Kind::MapRef(kind::MapRefNode {
                 input: self.node.packed(),
                 did_change: true.into(),
+                missed_changes: false.into(),
                 mapper: Box::new(move |x: &dyn ValueInternal| {
                     let x = x.as_any().downcast_ref::<T>().unwrap();
                     f(x) as &dyn ValueInternal
